@@ -113,21 +113,22 @@ def handleDmrSpec : List Sexp → Option String
       | list [dn, sz] => do pure (← asStr? dn, ← asNat? sz)
       | _ => none
     pure (xnodeStr (renderServer (← asStr? name) dims (← sexpToSrv? 4096 kids)))
-  | [atom "dmr-find", x] => do
-    -- `dataset[<group path>/<name>]` for every parsed variable, in document order: the key of what is found
+  | [atom "dmr-find", x, list keys] => do
+    -- `dataset[key]` for every key the harness supplies (declared and stored spellings of every declared
+    -- variable's path, document order): the stored key of what is found
     let x ← sexpToXNode? 64 x
-    match parseVars x, datasetTree x with
-    | .ok rs, .ok t =>
-      pure ("(ok" ++ String.join (rs.map fun r =>
-        " (" ++ strToHex r.key ++ " " ++ (match Forest.findVar (pathParts (quoteName r.key)) t with
-          | some f => strToHex f.key
+    let keys ← keys.mapM asStr?
+    match datasetTree x with
+    | .ok t =>
+      pure ("(ok" ++ String.join (keys.map fun k =>
+        " (" ++ strToHex k ++ " " ++ (match getitemPath k t with
+          | some f => strToHex (quoteName f.key)
           | none => "none") ++ ")") ++ ")")
-    | .error e, _ => pure (dmrErr e)
-    | _, .error e => pure (dmrErr e)
+    | .error e => pure (dmrErr e)
   | [atom "dmr-order", x] => do
     let x ← sexpToXNode? 64 x
     match decodeOrder x with
-    | .ok rs => pure ("(ok" ++ String.join (rs.map fun r => " " ++ strToHex r.key) ++ ")")
+    | .ok rs => pure ("(ok" ++ String.join (rs.map fun r => " " ++ strToHex (quoteName r.key)) ++ ")")
     | .error e => pure (dmrErr e)
   | _ => none
 
